@@ -540,33 +540,35 @@ theorem sheet_part_total (bk : Book) (parts : Parts) (name : Text) :
     (∃ b, sheetPart bk parts name = .ok b) ∨ (∃ e, sheetPart bk parts name = .err e) :=
   sheetPart_cases bk parts name
 
-/-- non-vacuity of `xlsb_sheet_resolution`: two sheets, a non-ASCII relationship id ("rIdé"), the relationships in
-    the other order with an extra relationship, a repeated id (the later one wins) and `Target` before `Id` -/
+/-- non-vacuity of `xlsb_sheet_resolution`: two sheets, a non-ASCII relationship id ("rIdé"), an absolute `Target`,
+    a relationship element under a namespace prefix, the relationships in the other order with an extra
+    relationship, a repeated id (the later one wins) and `Target` before `Id` -/
 example :
     let d1 : SheetDecl := ⟨.visible, 1, [65], "rIdé".toList, "worksheets/sheet1.bin".toList, [1, 2, 3]⟩
-    let d2 : SheetDecl := ⟨.hidden, 2, [66], "rId2".toList, "chartsheets/sheet2.bin".toList, [4, 5]⟩
+    let d2 : SheetDecl := ⟨.hidden, 2, [66], "rId2".toList, "/xl/chartsheets/sheet2.bin".toList, [4, 5]⟩
     let relItems : List RelItem :=
       [.elem (Rels.nmRelationships) [],
-       .rel ⟨Utf8.utf8Encode "rId2".toList, Utf8.utf8Encode "worksheets/old.bin".toList, [], [], [], true⟩,
-       .rel ⟨Utf8.utf8Encode "rId2".toList, Utf8.utf8Encode "chartsheets/sheet2.bin".toList, [([84, 121, 112, 101], [120])], [], [], false⟩,
+       .rel ⟨Rels.nmRelationship, Utf8.utf8Encode "rId2".toList, Utf8.utf8Encode "worksheets/old.bin".toList, [], [], [], true⟩,
+       .rel ⟨[112, 114, 58] ++ Rels.nmRelationship, Utf8.utf8Encode "rId2".toList, Utf8.utf8Encode "/xl/chartsheets/sheet2.bin".toList, [([84, 121, 112, 101], [120])], [], [], false⟩,
        .close Rels.nmRelationship,
-       .rel ⟨Utf8.utf8Encode "rId9".toList, Utf8.utf8Encode "styles.bin".toList, [], [], [], true⟩,
-       .rel ⟨Utf8.utf8Encode "rIdé".toList, Utf8.utf8Encode "worksheets/sheet1.bin".toList, [], [([84, 121, 112, 101], [120])], [], true⟩,
+       .rel ⟨Rels.nmRelationship, Utf8.utf8Encode "rId9".toList, Utf8.utf8Encode "styles.bin".toList, [], [], [], true⟩,
+       .rel ⟨Rels.nmRelationship, Utf8.utf8Encode "rIdé".toList, Utf8.utf8Encode "worksheets/sheet1.bin".toList, [], [([84, 121, 112, 101], [120])], [], true⟩,
        .other]
     let items : List WItem := [.other 0x83 [] false 0, .sheet d1 false 0, .wbprop 1 true 3, .sheet d2 true 4]
     (∀ i ∈ relItems, i.OK) ∧ (∀ it ∈ items, it.OK (declaredRels relItems [])) ∧
-    (declsOf items).Pairwise (fun a b => a.name ≠ b.name) := by
-  refine ⟨?_, ?_, ?_⟩
+    (declsOf items).Pairwise (fun a b => a.name ≠ b.name) ∧
+    (declsOf items).map SheetDecl.path = ["xl/worksheets/sheet1.bin".toList, "xl/chartsheets/sheet2.bin".toList] := by
+  refine ⟨?_, ?_, ?_, by decide⟩
   · intro i hi
     simp only [List.mem_cons, List.not_mem_nil, or_false] at hi
     rcases hi with rfl | rfl | rfl | rfl | rfl | rfl | rfl
-    · show Rels.nmRelationships ≠ Rels.nmRelationship; decide
-    · exact ⟨fun _ h => (nomatch h), fun _ h => (nomatch h), fun _ h => (nomatch h), by decide⟩
-    · refine ⟨?_, fun _ h => (nomatch h), fun _ h => (nomatch h), by decide⟩
+    · show Rels.localName Rels.nmRelationships ≠ Rels.nmRelationship; decide
+    · exact ⟨by decide, fun _ h => (nomatch h), fun _ h => (nomatch h), fun _ h => (nomatch h), by decide⟩
+    · refine ⟨by decide, ?_, fun _ h => (nomatch h), fun _ h => (nomatch h), by decide⟩
       intro a ha; simp only [List.mem_cons, List.not_mem_nil, or_false] at ha; subst ha; exact ⟨by decide, by decide⟩
     · trivial
-    · exact ⟨fun _ h => (nomatch h), fun _ h => (nomatch h), fun _ h => (nomatch h), by decide⟩
-    · refine ⟨fun _ h => (nomatch h), ?_, fun _ h => (nomatch h), by decide⟩
+    · exact ⟨by decide, fun _ h => (nomatch h), fun _ h => (nomatch h), fun _ h => (nomatch h), by decide⟩
+    · refine ⟨by decide, fun _ h => (nomatch h), ?_, fun _ h => (nomatch h), by decide⟩
       intro a ha; simp only [List.mem_cons, List.not_mem_nil, or_false] at ha; subst ha; exact ⟨by decide, by decide⟩
     · trivial
   · intro it hit
